@@ -19,7 +19,7 @@ ASSUMPTIONS = [
     'completion of an unregistration is not demanded when an ancestor is leaving at the same time (the statement speaks of completed ones only)',
     'operations are performed between ticks from the checking thread, never from inside handlers',
 ]
-REQUIRED = ['register', 'unregister_completed', 'nested_unregister', 'reregister_elsewhere', 'several_unregisters_before_tick',
+REQUIRED = ['fire_addressed_to_a_component_instance', 'fire_addressed_to_an_instance_that_left_this_tree', 'register', 'unregister_completed', 'nested_unregister', 'reregister_elsewhere', 'several_unregisters_before_tick',
             'pre_registration_event_delivered', 'subtree_moved_with_children', 'probe_after_detach_on_former_root', 'unregister_pending_noop', 'self_register']
 REQUIRED_OBLIGATIONS = ['LINKS', 'ROOT', 'SUBTREE_INTACT', 'ANNOUNCE_REGISTERED', 'ANNOUNCE_UNREGISTERED', 'PROBE_ONCE', 'PROBE_SCOPE']
 WORKER_TIMEOUT = {'quick': 300, 'thorough': 1500}
@@ -56,6 +56,7 @@ class Pool:
         self.nprobe = 0
         self.probes = {}      # uid -> dict
         self.was_detached = set()
+        self.ticking = None   # vid of the root whose tick() is running
 
     def vid(self, c):
         return getattr(c, '_vid', None)
@@ -68,7 +69,9 @@ class Pool:
         rec = self.seen.get(key)
         if rec is None:
             self.keep.append(event)
-            root = comp.root
+            # the root whose tick() is dispatching right now (every dispatch happens inside a tick() the harness calls); what the observer
+            # itself believes its root to be is not the reference
+            root = self.comps[self.ticking] if self.ticking is not None else comp.root
             rec = self.seen[key] = {'name': name, 'args': [self.vid(a) for a in args[:2]], 'uid': getattr(event, '_vuid', None),
                                     'observers': [], 'scope': sorted(self.real_subtree(root)), 'root': self.vid(root)}
         rec['observers'].append(comp._vid)
@@ -211,12 +214,24 @@ def run_case(case):
             pool.probes[pool.nprobe] = {'on': c, 'root_at_fire': pool.vid(cc.root), 'detached_self_root': cc.parent is cc and not cc.components,
                                         'fired_on_former_root_after_detach': bool(pool.completed_unreg) and cc.parent is cc}
             pool.keep.append(e)
-            cc.fire(e)
+            if len(op) > 2:
+                # addressed to a component instance (whoever fires still holds a reference to it, wherever it is by now)
+                tgt = comps[op[2]]
+                pool.marks.add('fire_addressed_to_a_component_instance')
+                if tgt.root is not cc.root:
+                    pool.marks.add('fire_addressed_to_an_instance_in_another_tree')
+                    if op[2] in pool.was_detached:
+                        pool.marks.add('fire_addressed_to_an_instance_that_left_this_tree')
+                cc.fire(e, tgt)
+            else:
+                cc.fire(e)
         elif k == 'tick':
             c, n = op[1], op[2]
             root = comps[c].root
+            pool.ticking = root._vid
             for _ in range(n):
                 root.tick()
+            pool.ticking = None
             unticked_unregs = 0
         after_step(step_no, op)
     # quiescence: settle every current root
@@ -226,7 +241,9 @@ def run_case(case):
             for c in comps:
                 if c.parent is c and len(c):
                     busy = True
+                    pool.ticking = c._vid
                     c.tick()
+                    pool.ticking = None
                     after_step('settle', ['tick', c._vid, 1])
             if not busy:
                 break
@@ -291,6 +308,11 @@ def corpus():
                                                        [T, 5, 3], [F, 3], [F, 5], [T, 5, 2], [U, 2], [T, 5, 5], [R, 2, 0], [T, 0, 3], [F, 3], [T, 0, 2]]})
     cs.append({'name': 'reregister-while-queue-pending', 'n': 4, 'ops': [[R, 1, 0], [T, 0, 2], [U, 1], [T, 0, 1], [T, 0, 1], [T, 0, 1], [F, 1], [R, 1, 2],
                                                                         [U, 1], [T, 2, 1], [T, 2, 4], [R, 1, 3], [T, 3, 3], [T, 0, 3]]})
+    # events addressed to a component instance: in the same tree, after it left (before / after the tick that completes it), after it
+    # joined another tree, and to the root itself
+    cs.append({'name': 'instance-addressed', 'n': 6, 'ops': [[R, 1, 0], [R, 2, 1], [R, 3, 0], [T, 0, 3], [F, 0, 2], [F, 3, 1], [F, 2, 0], [T, 0, 2], [U, 1], [F, 0, 1], [F, 3, 2],
+                                                             [T, 0, 5], [F, 0, 1], [F, 3, 2], [F, 1, 0], [F, 2, 3], [T, 0, 2], [T, 1, 2], [R, 1, 5], [T, 5, 3],
+                                                             [F, 0, 2], [F, 3, 1], [F, 5, 0], [F, 2, 3], [T, 0, 2], [T, 5, 2], [U, 2], [T, 5, 4], [F, 5, 2], [F, 0, 2], [T, 5, 2], [T, 0, 2], [T, 2, 2]]})
     return cs
 
 
@@ -308,7 +330,7 @@ def gen_case(rng):
         elif r < 0.45:
             ops.append(['unreg', rng.randrange(n)])
         elif r < 0.68:
-            ops.append(['fire', rng.randrange(n)])
+            ops.append(['fire', rng.randrange(n)] + ([rng.randrange(n)] if rng.random() < 0.3 else []))
         elif r < 0.7:
             ops.append(['selfreg', rng.randrange(n)])
         else:
